@@ -842,6 +842,16 @@ def corpus_cases():
     return res
 
 
+def corr_fail(ck, name, detail):
+    """A model-vs-interpreter disagreement that is not a violation of the property: recorded once
+    per correspondence (first three details kept), counted always."""
+    ck.count("disagreements:" + name)
+    seen = ck.stats.setdefault("_corr_seen", {})
+    seen[name] = seen.get(name, 0) + 1
+    if seen[name] <= 3:
+        ck.obligation(name, "correspondence", False, detail)
+
+
 def norm_impl(line):
     if line.startswith("ERR Blame"):
         return "ERR Blame"
@@ -854,6 +864,48 @@ def head_key(ast):
     if ast[0] == "bin":
         return ast[1]
     return ast[0]
+
+
+def free_vars(e):
+    k = e[0]
+    if k == "var":
+        return {e[1]}
+    if k == "let":
+        return free_vars(e[2]) | (free_vars(e[3]) - {e[1]})
+    if k == "call":
+        return set().union(*[free_vars(a) for a in e[2]]) if e[2] else set()
+    if k in ("lit", "bool", "enum", "str"):
+        return set()
+    out = set()
+    for x in e[1:]:
+        if isinstance(x, tuple):
+            out |= free_vars(x)
+    return out
+
+
+def sub_exprs(e):
+    yield e
+    if e[0] == "call":
+        for a in e[2]:
+            yield from sub_exprs(a)
+    else:
+        for x in e[1:]:
+            if isinstance(x, tuple):
+                yield from sub_exprs(x)
+
+
+def shrink_numeric(it, ast, im, ref):
+    """Smallest closed sub-expression on which interpreter and exact reference still differ."""
+    cands = sorted({c for c in sub_exprs(ast) if not free_vars(c) and c != ast}, key=lambda c: len(to_sx(c)))
+    if not cands:
+        return ast, im, ref
+    refs = [ref_line(c) for c in cands]
+    outs = it.eval_many([to_nickel(c) for c in cands], singles=[i for i, r in enumerate(refs) if not r.startswith("OK")])
+    for c, o, r in zip(cands, outs, refs):
+        o = norm_impl(o or "<none>")
+        if r != "UNSPEC" and o != r:
+            return c, o, r
+    return ast, im, ref
 
 
 def run_numeric(ck, it, exe_model, cases, label):
@@ -879,15 +931,15 @@ def run_numeric(ck, it, exe_model, cases, label):
         if m == "UNSPEC" or ref == "UNSPEC":
             ck.count("unspecified_f64_path")
             if m != ref:
-                ck.obligation("correspondence:pow-split", "correspondence", False, "model %s vs reference %s on %s" % (m, ref, to_nickel(ast)))
+                corr_fail(ck, "correspondence:pow-split", "model %s vs reference %s on %s" % (m, ref, to_nickel(ast)))
             continue
         if im != ref:
-            ck.violation("num:" + head_key(ast), "the interpreter's result differs from exact rational arithmetic",
-                         {"kind": "numeric", "ast": ast, "nickel": to_nickel(ast), "impl": im, "model": m, "reference": ref,
-                          "how_to_replay": "./verif check C16 --replay <this file>"})
+            small, sim, sref = shrink_numeric(it, ast, im, ref)
+            ck.violation("num:" + head_key(small), "the interpreter's result differs from exact rational arithmetic: `%s` gives `%s`, exact value `%s`" % (to_nickel(small)[:120], sim, sref),
+                         {"kind": "numeric", "ast": small, "nickel": to_nickel(small), "impl": sim, "model": m, "reference": sref,
+                          "found_in": to_nickel(ast), "how_to_replay": "./verif check C16 --replay <this file>"})
         elif m != im:
-            ck.obligation("correspondence:arith-model-vs-interpreter", "correspondence", False,
-                          "%s\nimpl  %s\nmodel %s\nref   %s" % (to_nickel(ast), im, m, ref))
+            corr_fail(ck, "correspondence:arith-model-vs-interpreter", "%s\nimpl  %s\nmodel %s\nref   %s" % (to_nickel(ast), im, m, ref))
     for (tag, ast), m, im in list(zip(cases, model_out, impl_out))[:2]:
         ck.sample({"stream": label, "nickel": to_nickel(ast)[:200], "impl": (im or "")[:200], "model": m[:200]})
 
@@ -1140,7 +1192,7 @@ def run_equality(ck, it, exe_model, triples, label, annotate_rng=None):
         ck.hist("equality_shapes", a[0] + b[0])
         for fl in ("!STACK", "!CANON", "!FUEL"):
             if fl in m_ab or fl in m_bc or fl in m_ac:
-                ck.obligation("model-internal:" + fl, "correspondence", False, "extracted model: stack algorithm / canonical tree / structural equality disagree on %s" % rep)
+                corr_fail(ck, "model-internal:" + fl, "extracted model: stack algorithm / canonical tree / structural equality disagree on %s" % rep)
         if not (im and im.startswith("OK [")):
             ck.violation("eq-error:" + (im or "none").replace(" ", "_"), "== on data values raised an error / crashed", rep)
             continue
@@ -1164,8 +1216,7 @@ def run_equality(ck, it, exe_model, triples, label, annotate_rng=None):
             if (ta == tb) != ab:
                 ck.violation("eq-vs-export", "a == b disagrees with equality of the canonical exported trees", rep)
             if "OK " + ta != c_a or "OK " + tb != c_b or ta != dv_tree(a):
-                ck.obligation("correspondence:canonical-tree", "correspondence", False,
-                              "tree of %s\nimpl  %s\nmodel %s\npy    %s" % (dv_nickel(a), ta, c_a, dv_tree(a)))
+                corr_fail(ck, "correspondence:canonical-tree", "tree of %s\nimpl  %s\nmodel %s\npy    %s" % (dv_nickel(a), ta, c_a, dv_tree(a)))
         if annotate_rng is not None and len(vals) >= 9:
             if [v == "true" for v in vals[5:8]] != [ab, ab, ab] or vals[8] != "true":
                 ck.violation("eq-pending-contracts", "== changes when validating contracts are pending on the operands", rep)
@@ -1174,7 +1225,7 @@ def run_equality(ck, it, exe_model, triples, label, annotate_rng=None):
         if [ab, bc, ac] != ref:
             ck.violation("eq-vs-reference", "== differs from structural equality of the data", rep)
         elif mod != [ab, bc, ac]:
-            ck.obligation("correspondence:eq-model-vs-interpreter", "correspondence", False, json.dumps(rep)[:1200])
+            corr_fail(ck, "correspondence:eq-model-vs-interpreter", json.dumps(rep)[:1200])
     a, b, c = triples[0]
     ck.sample({"stream": label, "a": dv_nickel(a)[:150], "b": dv_nickel(b)[:150], "impl": (impl[0] or "")[:120], "model": mo[0]})
 
